@@ -40,7 +40,7 @@ Definition str_spec (m : Z) (s : list Z) (args : list val) : option (list Z) :=
         end
   end.
 
-(* otto (builtin_string.go); Some None = a Go run-time panic *)
+(* otto (builtin_string.go); Some None = a Go run-time panic (none is predicted any more) *)
 Definition str_model (m : Z) (s : list Z) (args : list val) : option (option (list Z)) :=
   let size := Z.of_nat (length s) in
   if m =? 0 then
@@ -59,11 +59,8 @@ Definition str_model (m : Z) (s : list Z) (args : list val) : option (option (li
         if size <=? st then Some (Some [])
         else if ln <=? 0 then Some (Some [])
         else
-          let sum := st + ln in
-          let wrapped := if max_int64 <? sum then sum - 2 ^ 64 else sum in      (* int64 addition *)
-          if size <=? wrapped then Some (Some (substring s st size))
-          else if wrapped <? st then Some None                                   (* target[start:negative] *)
-          else Some (Some (substring s st wrapped))
+          if size - st <=? ln then Some (Some (substring s st size))
+          else Some (Some (substring s st (st + ln)))
     | None => None
     end.
 
